@@ -14,13 +14,6 @@ open KrakenModel.Codec
 
 abbrev Bytes := List Nat
 
-instance {ε α : Type} [DecidableEq ε] [DecidableEq α] : DecidableEq (Except ε α) := fun a b =>
-  match a, b with
-  | .ok x, .ok y => if h : x = y then isTrue (by rw [h]) else isFalse (fun e => by cases e; exact h rfl)
-  | .error x, .error y => if h : x = y then isTrue (by rw [h]) else isFalse (fun e => by cases e; exact h rfl)
-  | .ok _, .error _ => isFalse (fun e => by cases e)
-  | .error _, .ok _ => isFalse (fun e => by cases e)
-
 /-! ### encoding/hex -/
 
 /-- hex.EncodeToString (lower case) -/
